@@ -234,6 +234,11 @@ Proof.
   apply H. apply in_app_or in Hg. apply in_or_app. destruct Hg; [left|right; right]; assumption.
 Qed.
 
+(* the stream after a complete read / a forward seek / a hit of the signature search is good when the stream before was *)
+Ltac good_i1 Hg0 :=
+  match goal with i1 := _ |- s_good ?x = true => unfold x, advance; cbn [s_good]; rewrite ?Hg0;
+    repeat match goal with |- context [if ?c then _ else _] => destruct c end; reflexivity end.
+
 Theorem pair_sound W : forall M known R s bytes,
   pair_wr M known W R = true ->
   run_w cs call cap W s no_locals = Ok (s, bytes) ->
@@ -241,14 +246,15 @@ Theorem pair_sound W : forall M known R s bytes,
   s (sp_field sp) = VInt (sp_sig sp) ->
   forall r i rest, nstream i -> s_after i = bytes ++ rest ->
     agree_on known r s -> wf_state r -> defined_on (emitted W s) r ->
-  exists r' i', run_r cs call sp cap R r no_locals i = Ok (r', i') /\ rt_post W s r known rest r' i'.
+  exists r' i', run_r cs call sp cap R r no_locals i = Ok (r', i') /\ rt_post W s r known rest r' i' /\
+    (s_good i = true -> s_good i' = true).
 Proof using cap_ge sig_range.
   induction W as [| | | |f k IH|f k IH|f e k IH|f e k IH|f e k IH|e k IH|e k IH|f e k IH|x t e k IH|x e k IH|k IH|c a IHa b IHb];
     intros M known R s bytes HP HR HM Hws Hds Hsig r i rest Hi Hbytes Hag Hwr Hdr;
     cbn [pair_wr] in HP; try discriminate.
   - (* PEnd *)
     destruct R; try discriminate. cbn in HR. injection HR as <-.
-    exists r, i. split; [reflexivity|]. unfold rt_post. cbn [emitted app].
+    exists r, i. split; [reflexivity|]. split; [|intros Hg0; exact Hg0]. unfold rt_post. cbn [emitted app].
     refine (conj Hi (conj Hbytes (conj Hag (conj _ Hwr)))). intros; reflexivity.
   - (* PWrite *)
     cbn [run_w] in HR. destruct (ff f) as [x|] eqn:Hx; [|discriminate].
@@ -282,14 +288,14 @@ Proof using cap_ge sig_range.
         unfold read_into. rewrite Hk. rewrite Hl, Z.eqb_refl. cbn [bind].
         rewrite scalar_roundtrip by exact Hshape.
         set (r1 := upd r f (VInt z)). match goal with |- context [advance (width t) i ?g ?e] => set (i1 := advance (width t) i g e) end.
-        destruct (IH M (f :: known) R s rb HPk Ekk HM Hws Hds' Hsig r1 i1 rest) as (r' & i' & Hrun & Hpost).
+        destruct (IH M (f :: known) R s rb HPk Ekk HM Hws Hds' Hsig r1 i1 rest) as (r' & i' & Hrun & Hpost & Hgd).
         { apply nstream_advance; [exact Hi|]. rewrite Hbytes, zlen_app, Hl. pose proof (zlen_nonneg (rb ++ rest)). pose proof (width_pos t). lia. }
         { unfold i1, advance; cbn [s_after]. rewrite Hbytes. apply zdrop_app_len. exact Hl. }
         { intros g [<-|Hg]; unfold r1, upd; [rewrite Z.eqb_refl; symmetry; exact Esf|].
           destruct (Z.eqb_spec g f) as [->|]; [symmetry; exact Esf|apply Hag; exact Hg]. }
         { apply (wf_upd r f x); [exact Hwr|exact Hx|]. unfold shape_ok. rewrite Hk. exact Hshape. }
         { intros g Hg. unfold r1, upd. destruct (g =? f); [discriminate|apply Hdr'; exact Hg]. }
-        exists r', i'. split; [exact Hrun|]. destruct Hpost as (P1 & P2 & P3 & P4 & P5).
+        exists r', i'. split; [exact Hrun|]. split; [|intros Hg0; apply Hgd; good_i1 Hg0]. destruct Hpost as (P1 & P2 & P3 & P4 & P5).
         unfold rt_post. cbn [emitted]. refine (conj P1 (conj P2 (conj _ (conj _ P5)))).
         -- apply agree_cons; [|exact P3].
            destruct (in_dec Z.eq_dec f (emitted k s)) as [Hin|Hnin].
@@ -307,14 +313,14 @@ Proof using cap_ge sig_range.
         destruct (r f) as [|old|] eqn:Erf; try contradiction; try congruence.
         cbn [bind]. rewrite Hshape. rewrite <- Hshr. rewrite zdrop_all. rewrite app_nil_r.
         set (r1 := upd r f (VBytes bb)). match goal with |- context [advance (zlen old) i ?g ?e] => set (i1 := advance (zlen old) i g e) end.
-        destruct (IH M (f :: known) R s rb HPk Ekk HM Hws Hds' Hsig r1 i1 rest) as (r' & i' & Hrun & Hpost).
+        destruct (IH M (f :: known) R s rb HPk Ekk HM Hws Hds' Hsig r1 i1 rest) as (r' & i' & Hrun & Hpost & Hgd).
         { apply nstream_advance; [exact Hi|]. rewrite Hbytes, zlen_app, Hshr, Hshape. pose proof (zlen_nonneg (rb ++ rest)). lia. }
         { unfold i1, advance; cbn [s_after]. rewrite Hbytes. apply zdrop_app_len. lia. }
         { intros g [<-|Hg]; unfold r1, upd; [rewrite Z.eqb_refl; symmetry; exact Esf|].
           destruct (Z.eqb_spec g f) as [->|]; [symmetry; exact Esf|apply Hag; exact Hg]. }
         { apply (wf_upd r f x); [exact Hwr|exact Hx|]. unfold shape_ok. rewrite Hk. exact Hshape. }
         { intros g Hg. unfold r1, upd. destruct (g =? f); [discriminate|apply Hdr'; exact Hg]. }
-        exists r', i'. split; [exact Hrun|]. destruct Hpost as (P1 & P2 & P3 & P4 & P5).
+        exists r', i'. split; [exact Hrun|]. split; [|intros Hg0; apply Hgd; good_i1 Hg0]. destruct Hpost as (P1 & P2 & P3 & P4 & P5).
         unfold rt_post. cbn [emitted]. refine (conj P1 (conj P2 (conj _ (conj _ P5)))).
         -- apply agree_cons; [|exact P3].
            destruct (in_dec Z.eq_dec f (emitted k s)) as [Hin|Hnin].
@@ -335,7 +341,7 @@ Proof using cap_ge sig_range.
       cbn [run_r]. rewrite (scan_hit sp _ i (rb ++ rest) Hi sig_range Hbytes). cbn [bind fst snd].
       assert (Hl : zlen (le_enc 4 (sp_sig sp)) = 4) by (apply zlen_le_enc; lia).
       set (r1 := upd r (sp_field sp) (VInt (sp_sig sp))). set (i1 := advance 4 i true false).
-      destruct (IH M (sp_field sp :: known) R s rb HPk Ekk HM Hws Hds' Hsig r1 i1 rest) as (r' & i' & Hrun & Hpost).
+      destruct (IH M (sp_field sp :: known) R s rb HPk Ekk HM Hws Hds' Hsig r1 i1 rest) as (r' & i' & Hrun & Hpost & Hgd).
       { apply nstream_advance; [exact Hi|]. rewrite Hbytes, zlen_app, Hl. pose proof (zlen_nonneg (rb ++ rest)). lia. }
       { unfold i1, advance; cbn [s_after]. rewrite Hbytes. apply zdrop_app_len. exact Hl. }
       { intros g [<-|Hg]; unfold r1, upd; [rewrite Z.eqb_refl; symmetry; exact Hsig|].
@@ -343,7 +349,7 @@ Proof using cap_ge sig_range.
       { apply (wf_upd r _ x); [exact Hwr|exact Hx|]. unfold shape_ok. rewrite Hk.
         unfold in_type, in_range; simp_pow; lia. }
       { intros g Hg. unfold r1, upd. destruct (g =? sp_field sp); [discriminate|apply Hdr'; exact Hg]. }
-      exists r', i'. split; [exact Hrun|]. destruct Hpost as (P1 & P2 & P3 & P4 & P5).
+      exists r', i'. split; [exact Hrun|]. split; [|intros Hg0; apply Hgd; good_i1 Hg0]. destruct Hpost as (P1 & P2 & P3 & P4 & P5).
       unfold rt_post. cbn [emitted]. refine (conj P1 (conj P2 (conj _ (conj _ P5)))).
       * apply agree_cons; [|exact P3].
         destruct (in_dec Z.eq_dec (sp_field sp) (emitted k s)) as [Hin|Hnin].
@@ -393,13 +399,13 @@ Proof using cap_ge sig_range.
       replace (zlen old <? zlen bb) with false by lia.
       rewrite <- Hlen. rewrite zdrop_all, app_nil_r.
       set (r1 := upd r f (VBytes bb)). match goal with |- context [advance (zlen old) i ?g ?e] => set (i1 := advance (zlen old) i g e) end.
-      destruct (IH M known R s rb HPk Ekk HM Hws Hds' Hsig r1 i1 rest) as (r' & i' & Hrun & Hpost).
+      destruct (IH M known R s rb HPk Ekk HM Hws Hds' Hsig r1 i1 rest) as (r' & i' & Hrun & Hpost & Hgd).
       { apply nstream_advance; [exact Hi|]. rewrite Hbytes, zlen_app. pose proof (zlen_nonneg old). pose proof (zlen_nonneg (rb ++ rest)). lia. }
       { unfold i1, advance; cbn [s_after]. rewrite Hbytes. apply zdrop_app_len. lia. }
       { intros g Hg. unfold r1, upd. destruct (Z.eqb_spec g f) as [->|]; [symmetry; exact Esf|apply Hag; exact Hg]. }
       { apply (wf_upd r f x); [exact Hwr|exact Hx|]. unfold shape_ok. rewrite Hk. exact Hshape. }
       { intros g Hg. unfold r1, upd. destruct (g =? f); [discriminate|apply Hdr'; exact Hg]. }
-      exists r', i'. split; [exact Hrun|]. destruct Hpost as (P1 & P2 & P3 & P4 & P5).
+      exists r', i'. split; [exact Hrun|]. split; [|intros Hg0; apply Hgd; good_i1 Hg0]. destruct Hpost as (P1 & P2 & P3 & P4 & P5).
       unfold rt_post. cbn [emitted]. refine (conj P1 (conj P2 (conj _ (conj _ P5)))).
       * intros g Hg. cbn in Hg. destruct Hg as [<-|Hg]; [|apply P3; exact Hg].
         destruct (in_dec Z.eq_dec f (emitted k s)) as [Hin|Hnin].
@@ -456,7 +462,7 @@ Proof using cap_ge sig_range.
       replace (zlen buf <? zlen bb) with false by lia.
       rewrite <- Hbuf. rewrite zdrop_all, app_nil_r. rewrite Hbuf.
       set (r1 := upd r0 f (VBytes bb)). match goal with |- context [advance (zlen bb) i ?g ?e] => set (i1 := advance (zlen bb) i g e) end.
-      destruct (IH M known R s rb HPk Ekk HM Hws Hds' Hsig r1 i1 rest) as (r' & i' & Hrun & Hpost).
+      destruct (IH M known R s rb HPk Ekk HM Hws Hds' Hsig r1 i1 rest) as (r' & i' & Hrun & Hpost & Hgd).
       { apply nstream_advance; [exact Hi|]. rewrite Hbytes, zlen_app. pose proof (zlen_nonneg (rb ++ rest)). lia. }
       { unfold i1, advance; cbn [s_after]. rewrite Hbytes. apply zdrop_app_len. reflexivity. }
       { intros g Hg. unfold r1, r0, upd. destruct (Z.eqb_spec g f) as [->|]; [contradiction|apply Hag; exact Hg]. }
@@ -464,7 +470,7 @@ Proof using cap_ge sig_range.
         - rewrite Hbuf. exact Hshape.
         - exact Hshape. }
       { intros g Hg. unfold r1, r0, upd. destruct (g =? f); [discriminate|apply Hdr'; exact Hg]. }
-      exists r', i'. split; [exact Hrun|]. destruct Hpost as (P1 & P2 & P3 & P4 & P5).
+      exists r', i'. split; [exact Hrun|]. split; [|intros Hg0; apply Hgd; good_i1 Hg0]. destruct Hpost as (P1 & P2 & P3 & P4 & P5).
       unfold rt_post. cbn [emitted]. refine (conj P1 (conj P2 (conj _ (conj _ P5)))).
       * intros g Hg. cbn in Hg. destruct Hg as [<-|Hg]; [|apply P3; exact Hg].
         destruct (in_dec Z.eq_dec f (emitted k s)) as [Hin|Hnin].
@@ -490,10 +496,10 @@ Proof using cap_ge sig_range.
     rewrite En. cbn [bind].
     rewrite s_seek_fwd; [|exact Hi|rewrite Hbytes, zlen_app, zlen_zeros by lia; pose proof (zlen_nonneg (rb ++ rest)); lia].
     set (i1 := advance n i (s_good i) (s_eof i)).
-    destruct (IH M known R s rb HPk Ekk HM Hws Hds Hsig r i1 rest) as (r' & i' & Hrun & Hpost); try assumption.
+    destruct (IH M known R s rb HPk Ekk HM Hws Hds Hsig r i1 rest) as (r' & i' & Hrun & Hpost & Hgd); try assumption.
     { apply nstream_advance; [exact Hi|]. rewrite Hbytes, zlen_app, zlen_zeros by lia. pose proof (zlen_nonneg (rb ++ rest)). lia. }
     { unfold i1, advance; cbn [s_after]. rewrite Hbytes. apply zdrop_app_len. apply zlen_zeros. lia. }
-    exists r', i'. split; [exact Hrun|exact Hpost].
+    exists r', i'. split; [exact Hrun|]. split; [exact Hpost|]. intros Hg0. apply Hgd. unfold i1, advance; cbn [s_good]. exact Hg0.
   - (* PIf *)
     destruct R; try discriminate.
     repeat (apply andb_prop in HP; let H := fresh "HQ" in destruct HP as [HP H]).
